@@ -17,6 +17,13 @@ Recognised shapes (anything else raises Untranslatable -> tie broken):
                                 | node, minl, maxl = L[0] / L[-1] ; return _without_context(node, ...)         ARetFirst/Last
                                 | [assignments]; raise ...                                                    ARaise
                        with L in {candidates, matches}                           -> select_rules
+  file coordinates   _parse_lambda:  def_line = lam.__code__.co_firstlineno ; lines = linecache.getlines(f, mod.__dict__) ;
+                     source = ''.join(lines) ; all_nodes = parse(source, preamble_len=0, single_node=False), each of
+                     these names bound exactly once                                        (checked)
+                     parse(src, preamble_len=0, single_node=True):  module_node = ast.parse(<text>) ;
+                     nodes = module_node.body ; if preamble_len: nodes = nodes[preamble_len:] ; single_node check ;
+                     return nodes -- <text> ::= src | src.rstrip() | src.lstrip() | src.strip()   -> parse_norm
+                     (the line numbers of the tree are compared with co_firstlineno, a line number of the FILE)
   statelessness      parser.py: _unfold_continuations, dedent_block, parse_entity, _without_context, _arg_name,
                      _node_matches_argspec, _parse_lambda, parse; inspect_utils.py: getimmediatesource,
                      _fix_linecache_record -- the recovery path must carry no state between calls other than
@@ -210,6 +217,67 @@ def check_stateless(fname, tree):
                                  'through inspect.findsource / inspect.getblock' % fns['getimmediatesource'].lineno)
 
 
+NORMS = {'%s': 'NormNone', '%s.rstrip()': 'NormRStrip', '%s.lstrip()': 'NormLStrip', '%s.strip()': 'NormStrip'}
+
+
+def _body(fn):
+    return [s for s in fn.body if not (isinstance(s, ast.Expr) and isinstance(s.value, ast.Constant))]
+
+
+def _bound_once(fn, name, expected):
+    """`name` is bound exactly once in fn, by a plain top-level assignment whose value unparses to `expected`"""
+    stores = [n for n in ast.walk(fn) if isinstance(n, ast.Name) and n.id == name and isinstance(n.ctx, (ast.Store, ast.Del))]
+    tops = [s for s in fn.body if isinstance(s, ast.Assign) and len(s.targets) == 1
+            and isinstance(s.targets[0], ast.Name) and s.targets[0].id == name]
+    if len(stores) != 1 or len(tops) != 1:
+        _fail(fn, '%s: `%s` is not bound exactly once by a top-level assignment' % (fn.name, name))
+    got = ast.unparse(tops[0].value)
+    if got != expected:
+        _fail(tops[0], '%s: `%s = %s`, expected `%s`' % (fn.name, name, got, expected))
+    return tops[0]
+
+
+def parse_norm(fns):
+    """the text parse() hands to ast.parse, and the path of the file text from linecache to that call"""
+    pl = fns['_parse_lambda']
+    if [a.arg for a in pl.args.args] != ['lam'] or pl.args.vararg or pl.args.kwarg or pl.args.kwonlyargs:
+        _fail(pl, 'signature of _parse_lambda')
+    _bound_once(pl, 'def_line', 'lam.__code__.co_firstlineno')
+    _bound_once(pl, 'lines', 'linecache.getlines(f, mod.__dict__)')
+    _bound_once(pl, 'f', 'inspect.getsourcefile(lam)')
+    _bound_once(pl, 'mod', 'inspect.getmodule(lam)')
+    _bound_once(pl, 'source', "''.join(lines)")
+    _bound_once(pl, 'all_nodes', 'parse(source, preamble_len=0, single_node=False)')
+    ps = fns['parse']
+    a = ps.args
+    if [x.arg for x in a.args] != ['src', 'preamble_len', 'single_node'] or a.vararg or a.kwarg or a.kwonlyargs \
+            or a.posonlyargs or [ast.unparse(d) for d in a.defaults] != ['0', 'True']:
+        _fail(ps, 'signature of parse')
+    body = _body(ps)
+    if any(isinstance(n, ast.Name) and n.id in ('src', 'preamble_len', 'single_node')
+           and isinstance(n.ctx, (ast.Store, ast.Del)) for n in ast.walk(ps)):
+        _fail(ps, 'parse rebinds one of its parameters')
+    first = body[0] if body else None
+    if not (isinstance(first, ast.Assign) and len(first.targets) == 1 and ast.unparse(first.targets[0]) == 'module_node'
+            and isinstance(first.value, ast.Call) and ast.unparse(first.value.func) == 'ast.parse'
+            and len(first.value.args) == 1 and not first.value.keywords):
+        _fail(first or ps, 'parse does not start with `module_node = ast.parse(<text>)`')
+    text = ast.unparse(first.value.args[0])
+    norm = {k % 'src': v for k, v in NORMS.items()}.get(text)
+    if norm is None:
+        _fail(first, 'text handed to ast.parse is `%s` (expected src, possibly stripped)' % text)
+    rest = [ast.unparse(s) for s in body[1:]]
+    want = ['nodes = module_node.body',
+            'if preamble_len:\n    nodes = nodes[preamble_len:]',
+            "if single_node:\n    if len(nodes) != 1:\n        raise ValueError('expected exactly one node, got {}'.format(nodes))\n    return nodes[0]",
+            'return nodes']
+    if rest != want:
+        bad = next((i for i, (x, y) in enumerate(zip(rest, want)) if x != y), min(len(rest), len(want)))
+        _fail(body[1 + bad] if 1 + bad < len(body) else ps, 'parse: statement %d after the ast.parse call is not `%s`' % (
+            bad + 1, want[bad].split('\n')[0] if bad < len(want) else '<end>'))
+    return norm
+
+
 def translate(repo):
     path = os.path.join(repo, 'malt', 'pyct', 'parser.py')
     with open(path) as f:
@@ -218,7 +286,7 @@ def translate(repo):
     with open(os.path.join(repo, 'malt', 'pyct', 'inspect_utils.py')) as f:
         check_stateless('inspect_utils.py', ast.parse(f.read()))
     fns = {n.name: n for n in tree.body if isinstance(n, ast.FunctionDef)}
-    for need in ('_unfold_continuations', '_parse_lambda', '_node_matches_argspec'):
+    for need in ('_unfold_continuations', '_parse_lambda', '_node_matches_argspec', 'parse'):
         if need not in fns:
             raise Untranslatable('untranslatable: parser.py: no function ' + need)
     # --- _unfold_continuations
@@ -228,6 +296,8 @@ def translate(repo):
     if not (len(body) == 1 and isinstance(body[0], ast.Return)
             and ast.dump(body[0].value) == ast.dump(ast.parse("%s.replace('\\\\\\n', '')" % arg, mode='eval').body)):
         _fail(uf, '_unfold_continuations is not `return %s.replace(backslash-newline, empty)`' % arg)
+    # --- parse / file coordinates
+    norm = parse_norm(fns)
     # --- _parse_lambda
     pl = fns['_parse_lambda']
     stmts = pl.body
@@ -297,6 +367,9 @@ def translate(repo):
            'Definition span_ops : cmpop * cmpop := (%s, %s).' % tuple(ops),
            'Definition select_rules : list rule := [%s].' % '; '.join(rules),
            'Definition match_components : list component := [%s].' % '; '.join(comps),
+           '(* the text parse() hands to ast.parse; _parse_lambda parses the file text (linecache) through parse() and',
+           '   compares the line numbers of that tree with co_firstlineno *)',
+           'Definition parse_norm : text_norm := %s.' % norm,
            '(* the recovery functions of parser.py / inspect_utils.py write no module-level state (translator check) *)',
            'Definition recovery_stateless : bool := true.', '']
     return '\n'.join(out)
